@@ -7,6 +7,11 @@ COMMON_ASSUMPTIONS = [
 ]
 
 PROPS = {
+    "C19": {
+        "kinds": [("C19", 2000, 30000)],
+        "rule": "one rendering per case: an affine function or polytope (1-4 rows, 1-6 columns; entries incl. -0.0, zero rows, powers of two up to 2^40 and down to 2^-20, rounding ties, non-dyadic values) with default or random FormatOptions (sorting threshold, simplify_zero, simplify_tautologies, normalize, skip ranges for rows and axes) at precision 0-6, or the DOT / Display text of a random tree with index holes; the string is read back term by term against the stored values and compared with the model string; non-trivial = at least 2 rows / 3 nodes; distinct by case text",
+        "assumptions": COMMON_ASSUMPTIONS + ["{:.p} float formatting is modelled as exact round-half-even of the binary value", "rows printed normalised are float quotients: there the model string may differ in the last place (reported INEXACT), the read-back check still applies"],
+    },
     "C18": {
         "kinds": [("C18A", 600, 8000), ("C18N", 300, 3000)],
         "rule": "C18A: one sequence of 1-7 Architecture builder calls (valid and invalid, also after argmax), current_shape after each, real distillation of the accepted architecture, every split point (up to 5) with the composed halves evaluated at 8 inputs, one random extract_range; C18N: one npz file written in the numpy dialect (1-12 linear layers, widths 1-3, relu / hard_tanh / hard_sigmoid markers, padded and unpadded indices reaching 10 and above, unrelated entries, shuffled file order) read back with read_layers; non-trivial = at least 3 queued layers / 6 entries; distinct by case text",
